@@ -214,6 +214,12 @@ theorem future_witness_version_succeeds (fl : Flags) (chk : Checker) (wit : List
     verifyWitnessProgram fl chk wit ver prog p = .ok () :=
   Lemmas.future_witness_version_succeeds fl chk wit ver prog p hv hd
 
+/-- The canonical push `CScript() << d` (used for the P2SH-nested witness malleation rule and for
+`FindAndDelete`) tokenizes back to exactly one opcode carrying `d`, for every `d` of at most 65535 bytes. -/
+theorem canonical_push_roundtrip (d : Bytes) (h : d.length ≤ 65535) :
+    ∃ op, getOp (pushData d) = some (op, d, []) :=
+  Lemmas.getOp_pushData d h
+
 /-! ### signature encodings -/
 
 /-- `der_strict ⊆ der_lax`: a signature that satisfies the strict DER rule (BIP66, as enforced under
